@@ -17,6 +17,7 @@ open Cascette.Props.C05
 #print axioms save_load_id_bytes
 #print axioms idx_layout
 #print axioms idx_empty_file_bytes
+#print axioms load_sort_is_stable
 #print axioms zero_key_lost_on_reload
 #print axioms wide_id_on_reload
 #print axioms remove_pinned_lies
